@@ -20,20 +20,7 @@ import (
 
 const c08Slack = 2 * time.Millisecond
 
-func runBound(sc *Scenario) time.Duration {
-	n := time.Duration(sc.MaxTTL - sc.MinTTL + 1)
-	switch {
-	case sc.Serial():
-		per := sc.Timeout() + sc.Poll()
-		if sc.Delay() > per {
-			per = sc.Delay()
-		}
-		return n*per + c08Slack
-	case sc.Variant == "sack":
-		return 500*time.Millisecond + sc.Timeout() + n*sc.Delay() + sc.Poll() + c08Slack
-	}
-	return sc.Timeout() + n*sc.Delay() + sc.Poll() + c08Slack
-}
+func runBound(sc *Scenario) time.Duration { return scenarioBound(sc) + c08Slack }
 
 func checkC08Run(t *testing.T, sc *Scenario, rec *Recorder) []Diff {
 	o := RunScenario(t, sc)
@@ -58,7 +45,9 @@ func checkC08Run(t *testing.T, sc *Scenario, rec *Recorder) []Diff {
 		}
 	}
 	cancelled := sc.CancelAtUs > 0 && us(sc.CancelAtUs) < o.Elapsed+time.Nanosecond
-	if o.Elapsed > bound {
+	if o.Wire.Overrun {
+		ds = append(ds, Diff{"C08", "run-never-ends", fmt.Sprintf("%s run was still going after %v of virtual time (bound %v): stopped by the harness watchdog", sc.Variant, o.Wire.MaxVirtual, bound)})
+	} else if o.Elapsed > bound {
 		ds = append(ds, Diff{"C08", "run-exceeds-bound", fmt.Sprintf("%s run took %v of virtual time, bound from its parameters is %v (timeout %v, delay %v x %d probes, poll %v)", sc.Variant, o.Elapsed, bound, sc.Timeout(), sc.Delay(), sc.MaxTTL-sc.MinTTL+1, sc.Poll())})
 	}
 	engineStart := time.Duration(0)
@@ -143,7 +132,9 @@ func TestC08Engines(t *testing.T) {
 			}
 			bound = n*per + c08Slack
 		}
-		if o.elapsed > bound {
+		if o.drv != nil && o.drv.overrun {
+			ds = append(ds, Diff{"C08", "engine-never-ends", fmt.Sprintf("%s engine still running after %v of virtual time (bound %v): stopped by the harness watchdog", c.Engine, o.drv.limit, bound)})
+		} else if o.elapsed > bound {
 			ds = append(ds, Diff{"C08", "engine-exceeds-bound", fmt.Sprintf("%s engine took %v, bound %v", c.Engine, o.elapsed, bound)})
 		}
 		inside := false
